@@ -422,6 +422,8 @@ func VerifHarness_C10_dtlcp_resumption_flight() {
 	verifReach("read")
 	verifTag("resumptionFlight", 1)
 	verifAssert("C10.dtlcp.resumptionFlightIsReadable", err == nil && c.in.err == nil && c.handBuf.Len() == 16)
+	// C01: two honest endpoints with session caches complete their second handshake too
+	verifAssert("C01.dtlcp.resumptionFlightIsReadable", err == nil && c.in.err == nil && c.handBuf.Len() == 16)
 }
 
 // C09 / C17 — a flood of one-byte fragments, each opening a reassembly buffer for a new message sequence
